@@ -50,12 +50,12 @@ type Step struct {
 
 // Config selects the fork-dependent opcodes and the resource classes.
 type Config struct {
-	Push0   bool   // EIP-3855 active
-	Mcopy   bool   // EIP-5656 active
-	MemSoft uint64 // bytes; a larger request (below MemHard) => Gray
-	MemHard uint64 // bytes; a request >= MemHard is certainly out of gas => Fail
+	Push0    bool   // EIP-3855 active
+	Mcopy    bool   // EIP-5656 active
+	MemSoft  uint64 // bytes; a larger request (below MemHard) => Gray
+	MemHard  uint64 // bytes; a request >= MemHard is certainly out of gas => Fail
 	MaxSteps int
-	Trace   bool
+	Trace    bool
 }
 
 // Result of a run.
